@@ -797,10 +797,10 @@ class Project(MessageHandler):
         # Estimate days needed for effort
         work_days_needed: float = total_effort_seconds / daily_capacity_seconds if daily_capacity_seconds > 0 else 0
         # Add gap time (calendar days)
-        gap_days: float = total_gap_seconds / 86400
         # Total calendar days (with 50% buffer for weekends/non-working days)
         max_extension_days = 3 * 365
         try:
+            gap_days: float = total_gap_seconds / 86400
             total_days_needed: int = int((work_days_needed + gap_days) * 1.5) + 7
         except (OverflowError, ValueError):
             # an effort with hundreds of digits is 'inf' as a float: as far as allowed
